@@ -20,6 +20,7 @@ import numpy as np
 from . import use_repo
 from .alphabets import explorable_ids, kmask, kmask_ids, minimal_ids
 from .core import HarnessError, Stats
+from .digest import deep_digest
 
 use_repo()
 
@@ -385,7 +386,7 @@ class LatticeRun:
             if read(g2).key != t0.key:
                 self._viol("compute_bounds is not idempotent", h, K=kmask_ids(K))
             frontier = [(root, (K, 0), list(h0))]
-            seen = {t0.key}
+            seen = {(t0.key, repr(deep_digest({a: b for a, b in vars(root).items() if a != "_values"})))}
             for depth in range(1, d + 1):
                 nxt = []
                 validated = False
@@ -399,9 +400,11 @@ class LatticeRun:
                             return
                         td = read(g)
                         self.stats.transitions += 1
-                        if td.key in seen:
+                        # de-duplicate on the table AND on everything else the object carries (hidden memo, flags ...)
+                        dkey = (td.key, repr(deep_digest({a: b for a, b in vars(g).items() if a != "_values"})))
+                        if dkey in seen:
                             continue
-                        seen.add(td.key)
+                        seen.add(dkey)
                         self.stats.states += 1
                         k_expected = self._model_k(k, op)
                         alt1 = self._model_alt(alt, op)
